@@ -7,7 +7,7 @@
   arbitrary byte strings (a Go panic is the observation `panic`, which no model
   line ever equals).
 -/
-import ClairModel.Proofs.Codec
+import ClairModel.Proofs.CodecAccept
 import ClairModel.Gen.Enums
 
 -- every variable of a property statement is bound explicitly: a misspelt name is an error, not a new variable
@@ -77,18 +77,169 @@ theorem archop_decode_member (text : Bytes) (n : Nat)
       exact decode_member _ _ text i n hne hlen (by rw [hl]; exact hlast) hi hm
     · cases h; rw [hl]; omega
 
-/-- `Scan` of an `int64` accepts exactly the non-negative in-table values as
-    themselves and rejects everything at or above the table size. -/
-theorem enum_scan_int_spec (idx : List Nat) (v : Int) :
-    (v ≥ (idx.length - 1 : Nat) → enumScanInt idx v = .err) ∧
-    (0 ≤ v → v < (idx.length - 1 : Nat) → enumScanInt idx v = .ok v.toNat) := by
+/-- `Scan` of an `int64` accepts exactly the values `0 ≤ v < card`, as themselves
+    (after the fix; a negative value used to wrap around `uint`). -/
+theorem enum_scan_int_accepts_iff (idx : List Nat) (v : Int) (n : Nat) :
+    enumScanInt idx v = .ok n ↔ 0 ≤ v ∧ v < (idx.length - 1 : Nat) ∧ n = v.toNat := by
   unfold enumScanInt
   constructor
-  · intro h; simp [h]
-  · intro h0 h1
-    have h2 : ¬ v ≥ (idx.length - 1 : Nat) := by omega
-    have h3 : ¬ v < 0 := by omega
-    simp [h2, h3]
+  · intro h
+    split at h
+    · cases h
+    · rename_i hc
+      cases h
+      exact ⟨by omega, by omega, rfl⟩
+  · rintro ⟨h0, h1, rfl⟩
+    have : ¬ (v < 0 ∨ v ≥ (idx.length - 1 : Nat)) := by omega
+    simp [this]
+
+/-- The accepted language of `Severity.UnmarshalText`: a text decodes to member
+    `n` exactly when its FIRST occurrence in the name table starts at the
+    offset of name `n` — i.e. it is a prefix of the table from there on and
+    does not occur earlier (so every name is accepted, and so are "", "U",
+    "Hi", "LowMed"; see `severity_accepts_prefixes`). -/
+theorem severity_accepts_iff (text : Bytes) (n : Nat) :
+    severityUnmarshal severityNameBytes severityIndex text = .ok n ↔
+      n + 1 < severityIndex.length ∧ index severityNameBytes text = some (severityIndex.getD n 0) := by
+  obtain ⟨hl, _, hlast, hlen, hne, _⟩ := severity_table_shape
+  constructor
+  · intro h
+    have hm := severity_decode_member text n h
+    refine ⟨hm, ?_⟩
+    unfold severityUnmarshal at h
+    split at h
+    · cases h
+    · rename_i i hi
+      split at h
+      · rename_i m hf
+        cases h
+        have hb := indexFrom_bound text severityNameBytes 0 i hi
+        obtain ⟨_, _, h3⟩ := findOff_spec _ _ _ _ hf
+        have hmod : i % 256 = i := Nat.mod_eq_of_lt (by omega)
+        simp only [Nat.sub_zero, hmod] at h3
+        rw [hi, h3]
+      · cases h
+  · rintro ⟨hn, hi⟩
+    have hall : ∀ m ∈ List.range 6, findOff (severityIndex.getD m 0 % 256) severityIndex 0 = some m := by decide
+    have := hall n (List.mem_range.2 (by omega))
+    simp only [severityUnmarshal, hi, this]
+
+/-- `ArchOp.UnmarshalText` never fails: what is not a name decodes to the invalid member 0. -/
+theorem archop_never_errors (text : Bytes) : archOpUnmarshal archOpNameBytes archOpIndex text ≠ .err := by
+  unfold archOpUnmarshal
+  split
+  · simp
+  · split <;> simp
+
+/-- The accepted language of `ArchOp.UnmarshalText`, member by member. -/
+theorem archop_accepts_iff (text : Bytes) (n : Nat) (hn : 0 < n) :
+    archOpUnmarshal archOpNameBytes archOpIndex text = .ok n ↔
+      n + 1 < archOpIndex.length ∧ index archOpNameBytes text = some (archOpIndex.getD n 0) := by
+  obtain ⟨hl, _, hlast, hlen, hne, _⟩ := archop_table_shape
+  constructor
+  · intro h
+    have hm := archop_decode_member text n h
+    refine ⟨hm, ?_⟩
+    unfold archOpUnmarshal at h
+    split at h
+    · cases h; omega
+    · rename_i i hi
+      split at h
+      · rename_i m hf
+        cases h
+        have hb := indexFrom_bound text archOpNameBytes 0 i hi
+        obtain ⟨_, _, h3⟩ := findOff_spec _ _ _ _ hf
+        have hmod : i % 256 = i := Nat.mod_eq_of_lt (by omega)
+        simp only [Nat.sub_zero, hmod] at h3
+        rw [hi, h3]
+      · cases h; omega
+  · rintro ⟨hn', hi⟩
+    have hall : ∀ m ∈ List.range 4, findOff (archOpIndex.getD m 0 % 256) archOpIndex 0 = some m := by decide
+    have := hall n (List.mem_range.2 (by omega))
+    simp only [archOpUnmarshal, hi, this]
+
+/-- The decoders are lenient, not strict: the empty text and proper prefixes of
+    a name are accepted as that member ("" → Unknown, "Hi" → High). -/
+theorem severity_accepts_prefixes :
+    severityUnmarshal severityNameBytes severityIndex [] = .ok 0 ∧
+    severityUnmarshal severityNameBytes severityIndex [72, 105] = .ok 4 := by decide
+
+/-- The copies of the tables in toolkit/types are the same tables, so every
+    theorem here holds of `types.Severity` / `types.ArchOp` too. -/
+theorem toolkit_tables_equal :
+    tkSeverityNameBytes = severityNameBytes ∧ tkSeverityIndex = severityIndex ∧
+    tkArchOpNameBytes = archOpNameBytes ∧ tkArchOpIndex = archOpIndex := by decide
+
+theorem packagekind_table_shape :
+    packageKindIndex.length = 4 ∧ packageKindIndex.getD 0 1 = 0 ∧
+    packageKindIndex.getD 3 0 = packageKindNameBytes.length ∧ packageKindNameBytes.length < 256 ∧
+    packageKindNameBytes ≠ [] ∧ packageKindIndex.Pairwise (· < ·) := by decide
+
+/-- Every `types.PackageKind` member's text form decodes back to the member
+    (its decoder has the shape of ArchOp's: unknown text is member 0). -/
+theorem packagekind_roundtrip (n : Nat) (h : n + 1 < packageKindIndex.length) :
+    ∃ t, enumMarshal packageKindNameBytes packageKindIndex n = some t ∧
+         archOpUnmarshal packageKindNameBytes packageKindIndex t = .ok n := by
+  have hall : ∀ m ∈ List.range 3, ∃ t, enumMarshal packageKindNameBytes packageKindIndex m = some t ∧
+      archOpUnmarshal packageKindNameBytes packageKindIndex t = .ok m := by decide
+  exact hall n (List.mem_range.2 (by have := packagekind_table_shape.1; omega))
+
+/-- Whatever bytes are offered, `PackageKind.UnmarshalText` yields one of the three members. -/
+theorem packagekind_decode_member (text : Bytes) (n : Nat)
+    (h : archOpUnmarshal packageKindNameBytes packageKindIndex text = .ok n) :
+    n + 1 < packageKindIndex.length := by
+  obtain ⟨hl, _, hlast, hlen, hne, _⟩ := packagekind_table_shape
+  unfold archOpUnmarshal at h
+  split at h
+  · cases h; rw [hl]; omega
+  · rename_i i hi
+    split at h
+    · rename_i m hm
+      cases h
+      exact decode_member _ _ text i n hne hlen (by rw [hl]; exact hlast) hi hm
+    · cases h; rw [hl]; omega
+
+/-- SQL: `Value()` of every Severity member is a string that `Scan` decodes back to it. -/
+theorem severity_value_scan_roundtrip (n : Nat) (h : n + 1 < severityIndex.length) :
+    ∃ src, enumValue severityNameBytes severityIndex n = some src ∧
+      enumScan (severityUnmarshal severityNameBytes severityIndex) severityIndex src = .ok n := by
+  obtain ⟨t, h1, h2⟩ := severity_roundtrip n h
+  exact ⟨.str t, by simp [enumValue, h1], by simpa [enumScan] using h2⟩
+
+theorem archop_value_scan_roundtrip (n : Nat) (h : n + 1 < archOpIndex.length) :
+    ∃ src, enumValue archOpNameBytes archOpIndex n = some src ∧
+      enumScan (archOpUnmarshal archOpNameBytes archOpIndex) archOpIndex src = .ok n := by
+  obtain ⟨t, h1, h2⟩ := archop_roundtrip n h
+  exact ⟨.str t, by simp [enumValue, h1], by simpa [enumScan] using h2⟩
+
+/-- `Scan` over every kind of driver value: `string` and `[]byte` are the text
+    decoder, `int64` the range check, `nil` and everything else an error — and
+    whatever is accepted is a member. -/
+theorem severity_scan_spec (src : Src) (n : Nat)
+    (h : enumScan (severityUnmarshal severityNameBytes severityIndex) severityIndex src = .ok n) :
+    n + 1 < severityIndex.length ∧ src ≠ .null ∧ src ≠ .other := by
+  cases src with
+  | null => simp [enumScan] at h
+  | other => simp [enumScan] at h
+  | str b => exact ⟨severity_decode_member b n h, by simp, by simp⟩
+  | bytes b => exact ⟨severity_decode_member b n h, by simp, by simp⟩
+  | int v =>
+    have := (enum_scan_int_accepts_iff severityIndex v n).1 h
+    have hl := severity_table_shape.1
+    refine ⟨by omega, by simp, by simp⟩
+
+theorem archop_scan_spec (src : Src) (n : Nat)
+    (h : enumScan (archOpUnmarshal archOpNameBytes archOpIndex) archOpIndex src = .ok n) :
+    n + 1 < archOpIndex.length ∧ src ≠ .null ∧ src ≠ .other := by
+  cases src with
+  | null => simp [enumScan] at h
+  | other => simp [enumScan] at h
+  | str b => exact ⟨archop_decode_member b n h, by simp, by simp⟩
+  | bytes b => exact ⟨archop_decode_member b n h, by simp, by simp⟩
+  | int v =>
+    have := (enum_scan_int_accepts_iff archOpIndex v n).1 h
+    have hl := archop_table_shape.1
+    refine ⟨by omega, by simp, by simp⟩
 
 /-- Version text round trip: for every kind that is non-empty and contains no
     ':' and every ten int32 slots (including the extremes), decoding the
@@ -193,6 +344,142 @@ theorem digest_canonical (t : Bytes) (d : Digest) (h : digestParse t = some d) :
     digestParse (digestRepr d) = some d := by
   obtain ⟨hs, hb⟩ := digest_accept_sound t d h
   exact digest_roundtrip d hb hs
+
+/-- The accepted language of `Digest.UnmarshalText` / `ParseDigest`: exactly the
+    texts `algo ":" hex` where algo is "sha256" or "sha512" and hex is the hex
+    form (either case) of a checksum of that algorithm's size. -/
+theorem digest_accepts_iff (t : Bytes) (d : Digest) :
+    digestParse t = some d ↔
+      ∃ hx, t = d.algo ++ 58 :: hx ∧ hexDecode hx = some d.checksum ∧
+        digestSize d.algo = some d.checksum.length := by
+  constructor
+  · intro h
+    unfold digestParse at h
+    split at h
+    · cases h
+    · rename_i algo hx hcut
+      split at h
+      · cases h
+      · rename_i b hb
+        split at h
+        · cases h
+        · rename_i sz hsz
+          split at h
+          · rename_i hl
+            cases h
+            exact ⟨hx, cut_eq 58 t algo hx hcut, hb, by simp [hsz, hl]⟩
+          · cases h
+  · rintro ⟨hx, rfl, hb, hs⟩
+    have hc : 58 ∉ d.algo := by
+      unfold digestSize at hs
+      split at hs
+      · rename_i h; rw [h]; decide
+      · split at hs
+        · rename_i h; rw [h]; decide
+        · cases hs
+    simp only [digestParse, cut_append 58 d.algo _ hc, hb, hs, if_true]
+
+/-- No partial mutation (after the fix): a text the decoder rejects leaves the
+    receiver exactly as it was; a text it accepts replaces it entirely. -/
+theorem digest_unmarshal_receiver (old : Option Digest) (t : Bytes) :
+    (digestParse t = none → digestUnmarshal old t = (old, false)) ∧
+    (∀ d, digestParse t = some d → digestUnmarshal old t = (some d, true)) := by
+  unfold digestUnmarshal
+  constructor
+  · intro h; rw [h]
+  · intro d h; rw [h]
+
+/-- `Digest.Scan` over every kind of driver value: `nil` is accepted and changes
+    nothing; a `string` is the text decoder (its error is returned — the
+    repaired defect); `[]byte`, `int64` and the rest are errors that change nothing. -/
+theorem digest_scan_spec (old : Option Digest) (src : Src) :
+    (src = .null → digestScan old src = (old, true)) ∧
+    (∀ t, src = .str t → digestScan old src = digestUnmarshal old t) ∧
+    ((∀ t, src ≠ .str t) → src ≠ .null → digestScan old src = (old, false)) := by
+  cases src <;> simp [digestScan]
+
+/-- SQL round trip: `Value()` of a digest a constructor can build scans back to
+    it, whatever the receiver held. -/
+theorem digest_value_scan_roundtrip (old : Option Digest) (d : Digest) (hb : ∀ b ∈ d.checksum, b < 256)
+    (hs : digestSize d.algo = some d.checksum.length) :
+    digestScan old (.str (digestText (some d))) = (some d, true) := by
+  simp only [digestScan, digestUnmarshal, digestText, digest_roundtrip d hb hs]
+
+/-- The zero Digest does not survive its own text/SQL form (recorded finding
+    `digest-zero-value`): it prints as "" which the decoder rejects. -/
+theorem digest_zero_value_counterexample :
+    digestScan none (.str (digestText none)) = (none, false) := by decide
+
+/-- The accepted language of `Version.UnmarshalText`: a text without ':' (which
+    is ignored), or `kind ":" c₀ "." … "." cₖ` with at most ten components, each
+    an optionally signed decimal int32. -/
+theorem version_accepts_iff (old : Version) (text : Bytes) :
+    (versionUnmarshal old text).isSome = true ↔
+      58 ∉ text ∨ ∃ kind rest, text = kind ++ 58 :: rest ∧ 58 ∉ kind ∧
+        (splitOn 46 rest).length ≤ 10 ∧ ∀ p ∈ splitOn 46 rest, (parseInt32 p).isSome = true := by
+  unfold versionUnmarshal
+  cases hc : cut 58 text with
+  | none =>
+    simp only [Option.isSome_some, true_iff]
+    exact Or.inl ((cut_none_iff 58 text).1 hc)
+  | some p =>
+    obtain ⟨kind, rest⟩ := p
+    obtain ⟨he, hk⟩ := (cut_iff 58 text kind rest).1 hc
+    have hin : 58 ∈ text := by rw [he]; simp
+    have hiff := fillSlots_isSome_iff (splitOn 46 rest) old.v 0 (by omega)
+    simp only [Nat.zero_add] at hiff
+    simp only
+    constructor
+    · intro h
+      refine Or.inr ⟨kind, rest, he, hk, ?_⟩
+      apply hiff.1
+      cases hf : fillSlots old.v (splitOn 46 rest) 0 with
+      | none => rw [hf] at h; simp at h
+      | some w => rfl
+    · rintro (h | ⟨kind', rest', he', hk', hlen, hall⟩)
+      · exact absurd hin h
+      · have := (cut_iff 58 text kind' rest').2 ⟨he', hk'⟩
+        rw [hc] at this
+        cases this
+        have := hiff.2 ⟨hlen, hall⟩
+        cases hf : fillSlots old.v (splitOn 46 rest) 0 with
+        | none => rw [hf] at this; simp at this
+        | some w => rfl
+
+/-- The receiver-reporting form agrees with the plain decoder: the error flag
+    is "the text was accepted", and on success the receiver is the decoded value. -/
+theorem version_unmarshalX_agrees (old : Version) (text : Bytes) :
+    (versionUnmarshalX old text).2 = (versionUnmarshal old text).isSome ∧
+    (∀ v, versionUnmarshal old text = some v → (versionUnmarshalX old text).1 = v) := by
+  unfold versionUnmarshalX versionUnmarshal
+  cases hc : cut 58 text with
+  | none => simp
+  | some p =>
+    obtain ⟨kind, rest⟩ := p
+    obtain ⟨h1, h2⟩ := fillSlotsX_ok (splitOn 46 rest) old.v 0
+    simp only
+    constructor
+    · rw [h1]; cases fillSlots old.v (splitOn 46 rest) 0 <;> rfl
+    · intro v hv
+      cases hf : fillSlots old.v (splitOn 46 rest) 0 with
+      | none => rw [hf] at hv; cases hv
+      | some w => rw [hf] at hv; cases hv; rw [h2 w hf]
+
+/-- Full strength ("a rejected text leaves the receiver unchanged") is false of
+    `Version.UnmarshalText`: it assigns as it goes, so after the error on
+    "k:7.x" the receiver has the new kind and the first slot (documented
+    behaviour, observed on the real code by the `ver-unx` lines). -/
+theorem version_error_mutates_receiver_counterexample :
+    versionUnmarshalX Version.zero [107, 58, 55, 46, 120] =
+      (⟨[107], 7 :: List.replicate 9 0⟩, false) := by decide
+
+/-- …but whatever happens it still has its ten slots. -/
+theorem version_error_keeps_slot_count (old : Version) (text : Bytes) :
+    (versionUnmarshalX old text).1.v.length = old.v.length := by
+  unfold versionUnmarshalX
+  split
+  · rfl
+  · exact fillSlotsX_length _ _ _
 
 /-- Non-vacuity: a concrete version with extreme int32 slots meets the
     hypotheses of the round-trip theorem. -/
